@@ -14,6 +14,14 @@ def PK.isPI : PK → Bool | .provIngest .. => true | _ => false
 def PK.isAI : PK → Bool | .allocIngest .. => true | _ => false
 def PK.isTel : PK → Bool | .telescope => true | _ => false
 
+/-- the constructor name of a process kind -/
+def PK.tag : PK → String
+  | .monitor => "monitor" | .telescope => "telescope" | .clusterLoop => "clusterLoop"
+  | .schedLoop => "schedLoop" | .bufferLoop => "bufferLoop" | .allocIngest .. => "allocIngest"
+  | .provIngest .. => "provIngest" | .ingestStream .. => "ingestStream" | .allocTask .. => "allocTask"
+  | .doWork .. => "doWork" | .allocTasks .. => "allocTasks" | .hot2cold .. => "hot2cold"
+  | .cold2hot .. => "cold2hot"
+
 /-- a kind no clause of the invariant talks about -/
 def PK.neutral (k : PK) : Prop :=
   k.isAT = false ∧ k.isDW = false ∧ k.isPI = false ∧ k.isAI = false ∧ k.isTel = false
